@@ -415,6 +415,27 @@ def rule_product_board(ctx, M, fn, pr, turn_f, river_f):
             if not (src[0] == "index" and M.is_self_field(src[1], M.f_board) and P.const_int(src[2]) == k):
                 okb = False
                 break
+    direct = False
+    if not okb and bt[0] == "agg" and bt[1] == "array" and len(bt[2]) == 5:
+        # second form: the showdown board is assembled from the stored flop and the dealt turn / river themselves
+        # (`[flop[0].unwrap(), flop[1].unwrap(), flop[2].unwrap(), turn, river]`); nothing is written into the stored board
+        def flop_k(e_, k_):
+            e_ = P.strip(e_)
+            if e_[0] == "call" and e_[1].rsplit("::", 1)[-1] in ("unwrap", "expect", "unwrap_unchecked") and e_[2]:
+                src_ = P.strip(e_[2][0])
+                return src_[0] in ("index", "cindex") and M.is_self_field(src_[1], M.f_board) and \
+                    (P.const_int(src_[2]) if src_[0] == "index" else src_[2]) == k_
+            # `let [a, b, c] = self.flop.map(Option::unwrap)`
+            if e_[0] == "cindex" and e_[2] == k_:
+                m_ = P.strip(e_[1], calls=False)
+                if m_[0] == "call" and m_[1].rsplit("::", 1)[-1] == "map" and "array" in m_[1] and len(m_[2]) == 2:
+                    f_ = P.strip(m_[2][1], calls=False)
+                    return M.is_self_field(P.strip(m_[2][0]), M.f_board) and f_[0] == "fn" and f_[1].rsplit("::", 1)[-1] in ("unwrap",)
+            return False
+        direct = all(flop_k(bt[2][k_], k_) for k_ in range(3)) and \
+            classify_card(M, fn, pr, bt[2][3], turn_f, river_f) == ("deck", "turn") and \
+            classify_card(M, fn, pr, bt[2][4], turn_f, river_f) == ("deck", "river")
+        okb = direct
     if not okb:
         ctx.violation(rule_b, f"{fn.path}|board-argument",
                       f"board passed to Showdown::new is {P.show(bt)[:200]}; expected [board[0], board[1], board[2], board[3], board[4]]",
@@ -428,7 +449,7 @@ def rule_product_board(ctx, M, fn, pr, turn_f, river_f):
                 k = P.const_int(pr.local(pj[2]["idx"]))
                 val = pr.rvalue(rv) if "callterm" not in rv else None
                 st.setdefault(k, []).append(val)
-    want = {3: "turn", 4: "river"}
+    want = {} if direct else {3: "turn", 4: "river"}
     okst = True
     for k, role in want.items():
         somes = [v for v in st.get(k, []) if v and v[0] == "agg" and v[1].endswith("Option::Some")]
@@ -444,7 +465,7 @@ def rule_product_board(ctx, M, fn, pr, turn_f, river_f):
                           f"board[{k}] receives {c}; expected the deck card at the {role} index",
                           fn=fn.path, file=fn.file, line=fn.line)
     for k in st:
-        if k not in (3, 4):
+        if direct or k not in (3, 4):
             okst = False
             ctx.violation(rule_b, f"{fn.path}|board-{k}-overwritten", f"the deal function overwrites flop position board[{k}]",
                           fn=fn.path, file=fn.file, line=fn.line)
@@ -894,7 +915,11 @@ def rule_ctor(ctx, M):
     if ret[0] == "agg" and ret[1].startswith("adt:" + M.iter_ty):
         b = ret[2][M.f_board]
         bs = P.strip(b)
-        if not (bs == ("field", ("deref", ("param", 1)), board_field) or bs == ("field", ("param", 1), board_field)):
+        ev_board = (("field", ("deref", ("param", 1)), board_field), ("field", ("param", 1), board_field))
+        flop_copy = bs[0] == "agg" and bs[1] == "array" and len(bs[2]) in (3, 5) and \
+            all(P.strip(e_)[0] in ("index", "cindex") and P.strip(P.strip(e_)[1]) in ev_board and
+                (P.const_int(P.strip(e_)[2]) if P.strip(e_)[0] == "index" else P.strip(e_)[2]) == k_ for k_, e_ in enumerate(bs[2]))
+        if not (bs in ev_board or flop_copy):
             problems.append(f"the iterator's board is {P.show(b)[:80]}, not the evaluator's board as given")
         # .. and the copy is not touched between being taken and being stored (flow-insensitive provenance would not see
         # a `sort` through `&mut board[..3]`): no mutable borrow of, or store into, the local that becomes the board field
